@@ -8,8 +8,16 @@ ASSUMPTIONS = [
     "Model/ParseM.v, EmitM.v, GC.v are hand-written executable models of src/module/*.rs and src/passes/*.rs; attribute plumbing (Gen/Attrs.v), operator tables and visited-reference tables (Gen/Ops.v) are regenerated from the source; the models are tied to the code by replaying every (module, configuration) case on them and comparing the emitted section stream (this run)",
     "wasm-encoder's byte encoding of an abstract section and wasmparser's decoding are trusted and used as the differential oracle",
     "validation of the input is wasmparser's and is a premise of the theorems",
+    "behaviour after GC is observed by executing input and GC output side by side with node (see C01), not proved",
 ]
 
 
 def correspondence(ctx, thorough, search):
-    return run_mod(ctx, thorough, search, "C06")
+    """structural half: the module-level run; behavioural half: input vs. GC+emit output executed side by side (the C01 executor)"""
+    from . import c01
+    r = run_mod(ctx, thorough, search, "C06")
+    x = c01.correspondence(ctx, thorough, search, prop="C06")
+    r["oracle_violations"] += x["oracle_violations"]
+    r["coverage"]["execution_after_gc"] = x["coverage"].get("input_distribution")
+    r["coverage"]["rule"] = r["coverage"].get("rule", "") + " || execution: " + x["coverage"].get("rule", "")
+    return r
